@@ -30,11 +30,45 @@ def w_schema_dict(case):
     return _schema(case["text"]).to_dict()
 
 
+def _schema_shuffled(text, shuffle_seed):
+    """the parsed tree with every struct's `fields` list shuffled (a hand-built or post-processed AST: `encode`
+    takes any FcpV2 and must serialize in ascending field id whatever the list order)"""
+    import copy
+    key = (text, shuffle_seed)
+    if key not in _cache:
+        f = copy.deepcopy(_schema(text))
+        r = random.Random(shuffle_seed)
+        for st in f.structs:
+            r.shuffle(st.fields)
+        _cache[key] = f
+    return _cache[key]
+
+
+_held = []  # (object returned by an earlier encode(), its contents at that time, the case)
+
+
+class EncodeResultClobbered(Exception):
+    pass
+
+
 def w_encode(case):
     from fcp import serde
 
-    fcp = _schema(case["text"])
-    return list(serde.encode(fcp, case["struct"], case["value"]))
+    fcp = _schema(case["text"]) if not case.get("ast_shuffle") else _schema_shuffled(case["text"], case["ast_shuffle"])
+    raw = serde.encode(fcp, case["struct"], case["value"])
+    out = list(raw)
+    # results handed out earlier must not change when encode() is called again (shared output buffer)
+    for praw, pcopy, pcase in _held:
+        if list(praw) != pcopy:
+            del _held[:]
+            raise EncodeResultClobbered(
+                "bytes returned by an earlier encode() changed after a later encode(): earlier call "
+                + json.dumps({"struct": pcase["struct"], "value": repr(pcase["value"])[:200], "schema": pcase["text"][:300],
+                              "returned": pcopy[:40], "now": list(praw)[:40]}))
+    _held.append((raw, out, case))
+    if len(_held) > 3:
+        _held.pop(0)
+    return out
 
 
 class _Counter:
@@ -47,7 +81,7 @@ def w_decode(case):
     """decode with call counting (C16 work bound); returns (value, reads, decodes)"""
     from fcp import serde
 
-    fcp = _schema(case["text"])
+    fcp = _schema(case["text"]) if not case.get("ast_shuffle") else _schema_shuffled(case["text"], case["ast_shuffle"])
     cnt = _Counter()
     orig_read = serde._Buffer.read_word
     orig_dec = serde._decode
@@ -235,6 +269,12 @@ def run(prop, tier, replay=None):
     # exhaustive scalar sub-scope: width x alignment x boundary values (thorough)
     for _ in range(n_schemas):
         descs.append(gen.gen_codec_desc(rng))
+    # byte-boundary family: every kind of leaf (1-bit, single-valued enum, containers of them, ...) placed so that it ends
+    # just past / just before a byte boundary, alone, after a pad, before a pad, nested and behind a string
+    bfam = gen.boundary_descs()
+    if tier != "thorough":
+        bfam = rng.sample(bfam, min(len(bfam), 10))
+    descs.extend(bfam)
     # alignment sweep: a scalar behind a u<k> prefix, k = 0..7
     sweep_widths = range(1, 65) if tier == "thorough" else rng.sample(range(1, 65), 8)
     for w in sweep_widths:
@@ -261,10 +301,13 @@ def run(prop, tier, replay=None):
             log("schema rejected by front end:", sd[i], texts[i][:300])
             continue
         names = [s[0] for s in d.structs]
-        targets = names if getattr(d, "sweep", False) else [names[-1]] + ([rng.choice(names)] if len(names) > 1 else [])
+        targets = names if getattr(d, "sweep", False) or getattr(d, "all_structs", False) else \
+            [names[-1]] + ([rng.choice(names)] if len(names) > 1 else [])
         for name in targets:
             t = ("struct", name)
             nv = n_values if not getattr(d, "sweep", False) else 1
+            if getattr(d, "all_structs", False):
+                nv = 3
             vals = []
             if getattr(d, "sweep", False):
                 kind, w = d.struct(name)[-2][2]
@@ -299,11 +342,15 @@ def run(prop, tier, replay=None):
                 rep.cov["constructors"][k_] = rep.cov["constructors"].get(k_, 0) + c_
 
     wires = {i: schema_to_wire(sd[i]["ok"]) for i in range(len(descs)) if "ok" in sd[i]}
+    # a quarter of the schemas are handed to encode()/decode() as an AST whose field lists were shuffled after parsing
+    shuf = {i: rng.randint(1, 10 ** 6) for i in range(len(descs)) if rng.random() < 0.25}
+    rep.cov["ast_shuffled_schemas"] = len(shuf)
 
     # phase A: implementation encode
     enc = run_cases(
         "harness.codec", "w_encode",
-        [{"text": texts[i], "struct": name, "value": py} for (i, name, py, mv) in cases], timeout_s=20,
+        [dict({"text": texts[i], "struct": name, "value": py}, **({"ast_shuffle": shuf[i]} if shuf.get(i) else {}))
+         for (i, name, py, mv) in cases], timeout_s=20,
     )
     # model: spec bytes + PyCodec model bytes
     model = run_codec_grouped([(wires[i], name, {"value": mv}) for (i, name, py, mv) in cases])
@@ -389,7 +436,8 @@ def run(prop, tier, replay=None):
     cap = 300_000
     dres = run_cases(
         "harness.codec", "w_decode",
-        [{"text": texts[cases[ci][0]], "struct": cases[ci][1], "bytes": bs, "cap": cap} for (ci, kind, bs) in dec_jobs],
+        [dict({"text": texts[cases[ci][0]], "struct": cases[ci][1], "bytes": bs, "cap": cap},
+              **({"ast_shuffle": shuf[cases[ci][0]]} if shuf.get(cases[ci][0]) else {})) for (ci, kind, bs) in dec_jobs],
         timeout_s=30,
     )
     log(f"t={_t.time()-rep.t0:.1f}s impl decode done")
@@ -457,15 +505,19 @@ def run(prop, tier, replay=None):
             rep.violation(dict(base, kind="work", observed=o["reads"], bound=bound,
                                what="number of read_word calls exceeds the input-length bound"))
             continue
-        # theorem C16_work_bounded is about `reads`, the model's count of read_word calls: the implementation's
-        # count must be that number exactly, and within the proved bound whenever PosWidth holds
+        # theorem C16_work_bounded is about `reads`, the model's count of read_word calls.  The implementation's count
+        # must not exceed that number (then the proved bound covers it a fortiori: o <= reads <= weight * (1 + bits));
+        # fewer calls - e.g. a block read where the model reads character by character - is still covered and only
+        # recorded.  Today the two are equal on every job.
         if kind != "own-noncanonical" and "reads" in m:
             rep.hist("work_compared", "pos-width" if m.get("pos_width") else "zero-width-under-dyn")
-            if o["reads"] != m["reads"]:
+            if o["reads"] < m["reads"]:
+                rep.hist("work_below_model", "fewer read_word calls than the model")
+            if o["reads"] > m["reads"]:
                 rep.cov["disagreements_checked"] += 1
                 rep.violation(dict(base, kind="work-correspondence", observed=o["reads"], model=m["reads"],
-                                   what="number of read_word calls differs from the model's `reads` (C16_work_bounded no longer "
-                                        "describes the decoder)"),
+                                   what="number of read_word calls exceeds the model's `reads` (C16_work_bounded no longer "
+                                        "covers the decoder)"),
                               no_input=not (m.get("pos_width") and o["reads"] > m["weight"] * (1 + 8 * len(bs))))
                 continue
             if m.get("pos_width") and m["reads"] > m["weight"] * (1 + 8 * len(bs)):
